@@ -506,6 +506,20 @@ class Container:
             rep.fail("container-size", mod, "Tdf.add_block", fresh[new_entry],
                      f"entry size is `{norm(size)}`, not `{block_param}.nBytes`: following blocks would be placed by a different size than the bytes written",
                      construct=f"TdfEntry(... size={norm(size)} ...)")
+        # (a') the new block starts where the slot it takes over points: entry.offset = <table>[<that slot>].offset
+        # (the free slots carry the end of the data - C09's invariant; any other source places the block somewhere else)
+        off = args.get("offset")
+        st0 = stored[0]
+        if st0.kind == "table_store" and off is not None:
+            r_off = ff.resolve(off)
+            want_off = f"self.{self.entries_attr}[{norm(ff.resolve(st0.index))}].offset"
+            if norm(r_off) == want_off:
+                rep.ok("container-size", f"add_block: entry.offset = {want_off} (the slot it takes over)", nontrivial=True)
+            else:
+                rep.fail("container-size", mod, "Tdf.add_block", fresh[new_entry],
+                         f"the new entry's offset is `{norm(r_off)}`, not the offset carried by the unused slot it takes over (`{want_off}`): "
+                         "the block is not guaranteed to start at the end of the data",
+                         construct=f"TdfEntry(... offset={norm(off)} ...)")
         # (b) block written at seek(new_entry.offset)
         bw = [e for e in ff.ev("block_write") if norm(e.obj) == block_param]
         if not bw:
